@@ -140,7 +140,7 @@ def main():
         'setup_cmd': 'true',
         'hooks': {
             'guard': 'astrolabe_verif',
-            'enable': 'RUSTFLAGS="--cfg astrolabe_verif" (replay crate only; the Verus units read source text and need no hook)',
+            'enable': 'no hook exists: the Verus units read /repo source text, the Kani rows inject a #[cfg(kani)] module into a scratch copy, the replay crate uses the public API',
             'baseline_off_cmd': 'cd /repo && cargo test --workspace --no-fail-fast --offline',
             'source_commits': [],
             'add_only': True,
